@@ -27,6 +27,7 @@ import (
 	"github.com/relex/slog-agent/transform/treplace"
 	"github.com/relex/slog-agent/transform/ttruncate"
 	"github.com/relex/slog-agent/transform/tunescape"
+	"github.com/relex/slog-agent/util"
 	"github.com/relex/slog-agent/zz_verif/sym"
 )
 
@@ -226,3 +227,81 @@ func VerifC16_AcceptedTemplateSlicesRun() { VerifC15_TemplateSlices() }
 //
 //verif:reach sliced
 func VerifC06_TagWindowsFollowTheValue() { VerifC15_TemplateSlices() }
+
+// VerifC12_ConcurrentPipelinesAgree: for each transform type that keeps scratch
+// state (templates, unescape, redaction, extraction, truncation), two pipeline
+// instances built from one configuration process different records at the same
+// time (one preemption at any call into the agent's packages): each result
+// equals what a fresh instance produces for that record alone.
+//
+//verif:native off
+//verif:preempt 1
+//verif:preemptcalls github.com/relex/slog-agent/
+//verif:delays 1
+//verif:reach done
+//verif:paths 200000
+//verif:steps 50000000
+func VerifC12_ConcurrentPipelinesAgree() {
+	var tc verifTC
+	switch sym.Choice("transform", 6) {
+	case 0:
+		tc = verifTC{Value: &taddfields.Config{Fields: map[string]string{"tag": "a=$app l=$level"}}}
+	case 1:
+		tc = verifTC{Value: &tunescape.Config{Key: "msg"}}
+	case 2:
+		tc = verifTC{Value: &tredactemail.Config{Key: "msg", MetricLabel: "r"}}
+	case 3:
+		c := &textractspecial.Config{Key: "msg", DestKey: "tag", Pattern: "\\[*\\]", MaxLength: 10}
+		c.Type = "extractHead"
+		tc = verifTC{Value: c}
+	case 4:
+		tc = verifTC{Value: &ttruncate.Config{Key: "msg", MaxLength: 4, Suffix: ".."}}
+	case 5:
+		tc = verifTC{Value: &treplace.Config{Key: "msg", Pattern: "[0-9]+", Replacement: "N"}}
+	}
+	sym.Assert(bsupport.VerifyTransformConfigs([]verifTC{tc}, verifProgSchema, "t") == nil, "configuration accepted")
+	inputs := []base.LogFields{
+		{"app1", "inf", "[x1] a\\nb bob@ex.com 12", ""},
+		{"ap2", "warning", "[yy22] c\\td ann@host.org 3456", ""},
+	}
+	// field values live in writable record memory (several transforms edit in place)
+	mutable := func(in base.LogFields) base.LogFields {
+		out := make(base.LogFields, len(in))
+		for i, f := range in {
+			out[i] = util.StringFromBytes(append([]byte{}, f...))
+		}
+		return out
+	}
+	run := func(in base.LogFields) base.LogFields {
+		steps := bsupport.NewTransformsFromConfig([]verifTC{tc}, verifProgSchema, logger.Root(), &verifCounters{})
+		rec := verifProgSchema.NewTestRecord1(mutable(in))
+		rec.RawLength = 30
+		bsupport.RunTransforms(rec, steps)
+		return rec.Fields
+	}
+	want := []base.LogFields{run(inputs[0]), run(inputs[1])}
+	var got [2]base.LogFields
+	stepsA := bsupport.NewTransformsFromConfig([]verifTC{tc}, verifProgSchema, logger.Root(), &verifCounters{})
+	stepsB := bsupport.NewTransformsFromConfig([]verifTC{tc}, verifProgSchema, logger.Root(), &verifCounters{})
+	done := make(chan struct{}, 2)
+	worker := func(i int, steps []base.LogTransformFunc) {
+		rec := verifProgSchema.NewTestRecord1(mutable(inputs[i]))
+		rec.RawLength = 30
+		bsupport.RunTransforms(rec, steps)
+		got[i] = append(base.LogFields{}, rec.Fields...)
+		for f := range got[i] {
+			got[i][f] = string(append([]byte{}, got[i][f]...)) // what the output stage would serialize now
+		}
+		done <- struct{}{}
+	}
+	go worker(0, stepsA)
+	go worker(1, stepsB)
+	<-done
+	<-done
+	for i := 0; i < 2; i++ {
+		for f := range want[i] {
+			sym.Assert(got[i][f] == want[i][f], "a record processed while another pipeline runs gets the result it gets alone")
+		}
+	}
+	sym.Reach("done")
+}
